@@ -745,7 +745,8 @@ func canonClient(sc *Scenario, rec *recorder, res *http.Response) []string {
 		bodyCanon = "B:" + hx(body)
 	}
 	if cl := hdr.Get("Content-Length"); cl != "" {
-		if n, err := strconv.Atoi(cl); err != nil || n != len(body) {
+		// net/http drops a Content-Length that is not a non-negative number; a valid one must match
+		if n, err := strconv.ParseUint(cl, 10, 63); err == nil && int(n) != len(body) {
 			bodyCanon = "CONTENT-LENGTH-MISMATCH:" + bodyCanon
 		}
 	}
